@@ -225,6 +225,9 @@ class Emitter:
             self.doc(1, d.get('doc'))
             for p in d['params']:
                 self.field(1, p)
+        elif k == 'raw':
+            for ind, text in d['lines']:
+                self.line(ind, text)
         else:
             raise AssertionError(k)
 
@@ -328,10 +331,14 @@ def render(api, layout=None):
         em.line(0, 'namespace stone_cfg')
         for i in api['schema']['imports']:
             em.line(0, 'import %s' % i)
-        if api['schema']['fields']:
+        if api['schema']['fields'] or api['schema'].get('raw_fields'):
             em.line(0, 'struct Route')
             for fld in api['schema']['fields']:
                 em.field(1, fld)
+            for ind, text in api['schema'].get('raw_fields') or []:
+                em.line(ind, text)
+        for ind, text in api['schema'].get('raw_extra') or []:
+            em.line(ind, text)
         text = '\n'.join(_assemble(em.lines, layout['noise'])) + '\n'
         pos = min(layout.get('schema_pos', len(out_files)), len(out_files))
         out_files.insert(pos, ('stone_cfg.stone', text))
